@@ -10,6 +10,11 @@ use std::sync::mpsc::{RecvError, TryRecvError, TrySendError};
 pub trait Pay: Clone + Sync + Send + 'static {
     fn mk(id: u8) -> Self;
     fn id(&self) -> u8;
+    /// body of an in-place view closure: returns the id it saw
+    fn view(&self) -> u8 {
+        crate::payload::on_view(self.id());
+        self.id()
+    }
 }
 
 impl Pay for u8 {
@@ -81,8 +86,7 @@ pub trait Fl: 'static {
 /// The closure body used for every in-place view.
 #[inline(always)]
 pub fn view_hook<P: Pay>(p: &P) -> u8 {
-    crate::payload::on_view(p.id());
-    p.id()
+    p.view()
 }
 
 // ------------------------------------------------------------------------------------------
